@@ -3,13 +3,19 @@ package props
 // C10 — concurrent requests are race-free, serialisable, and see immutable snapshots.
 
 import (
+	"context"
+	"encoding/json"
 	"fmt"
 	"math/big"
+	"os"
 	"sort"
 	"strings"
+	"sync"
+	"sync/atomic"
 	"testing"
 	"time"
 
+	"github.com/vipnode/vipnode/v2/ethnode"
 	"github.com/vipnode/vipnode/v2/pool"
 	"github.com/vipnode/vipnode/v2/pool/store"
 	"github.com/vipnode/vipnode/v2/pool/store/memory"
@@ -539,6 +545,121 @@ func TestC10Snapshots(t *testing.T) {
 			rec.Case("snap|"+driver+"|"+strings.Join(hist, ","), maxCredits >= 3, []string{"snap", "snap:driver:" + driver}, func() interface{} {
 				return map[string]interface{}{"kind": "snapshots", "driver": driver, "history": hist, "values_held": len(held)}
 			})
+		})
+	})
+}
+
+// ---------------------------------------------------------------------------
+// the pool binary built with the race detector, driven over real sockets
+
+func TestC10BinaryRace(t *testing.T) {
+	rec := vt.For("C10")
+	rec.Rule("socket transports (statistical): the `vipnode pool` binary is built from the working tree WITH the race detector and driven concurrently over real WebSockets (hosts with the reverse whitelist service) and HTTP (clients): connect, keep-alives reporting each other, peer requests, wallet links, pool_account / pool_status reads, reconnects and abrupt closes, all at once from separate goroutines for a generated number of rounds; oracle: the binary's stderr never contains 'DATA RACE' or 'panic', the process stays alive and pool_status still answers; distinct by workload shape")
+	os.Setenv("VERIF_BINARY_RACE", "1")
+	p := startPool(t)
+	defer p.stop()
+	defer os.Remove(binPath)
+	rapid.Check(t, func(rt *rapid.T) {
+		nHosts := rapid.IntRange(1, 3).Draw(rt, "hosts")
+		nClients := rapid.IntRange(2, 5).Draw(rt, "clients")
+		rounds := rapid.IntRange(1, 4).Draw(rt, "rounds")
+		ctx, cancel := context.WithTimeout(context.Background(), 60*time.Second)
+		defer cancel()
+		var wg sync.WaitGroup
+		var emu sync.Mutex
+		var errs []string
+		note := func(f string, a ...interface{}) {
+			emu.Lock()
+			errs = append(errs, fmt.Sprintf(f, a...))
+			emu.Unlock()
+		}
+		hostIDs := []string{}
+		for h := 0; h < nHosts; h++ {
+			hostIDs = append(hostIDs, nodeIdent(h).nodeID)
+		}
+		var connSeq int32 = 1000
+		for h := 0; h < nHosts; h++ {
+			h := h
+			reconnect := rapid.Bool().Draw(rt, "reconnect")
+			wg.Add(1)
+			go func() {
+				defer wg.Done()
+				id := nodeIdent(h)
+				a, err := dialWS(p.addr, id, int(atomic.AddInt32(&connSeq, 1)))
+				if err != nil {
+					note("host dial: %v", err)
+					return
+				}
+				if err := a.connectHost(ctx); err != nil {
+					note("host connect: %v", err)
+				}
+				rp := pool.Remote(a.remote, id.key)
+				for r := 0; r < rounds; r++ {
+					if _, err := rp.Update(ctx, pool.UpdateRequest{PeerInfo: peerInfos([]string{nodeIdent(5).nodeID}, false), BlockNumber: uint64(r)}); err != nil {
+						note("host update: %v", err)
+					}
+					if reconnect && r == 0 {
+						b, err := dialWS(p.addr, id, int(atomic.AddInt32(&connSeq, 1)))
+						if err == nil {
+							b.connectHost(ctx)
+							a.end("tcp-drop")
+							a = b
+							rp = pool.Remote(a.remote, id.key)
+						}
+					}
+				}
+				a.end("close-1000")
+			}()
+		}
+		for c := 0; c < nClients; c++ {
+			c := c
+			link := rapid.Bool().Draw(rt, "link")
+			wg.Add(1)
+			go func() {
+				defer wg.Done()
+				id := nodeIdent(4 + c)
+				hs := httpClient(p.addr)
+				rp := pool.Remote(hs, id.key)
+				if _, err := rp.Connect(ctx, pool.ConnectRequest{VipnodeVersion: "verif", NodeInfo: ethnode.UserAgent{Kind: ethnode.Geth, Network: 1}}); err != nil {
+					note("client connect: %v", err)
+					return
+				}
+				for r := 0; r < rounds; r++ {
+					if _, err := rp.Update(ctx, pool.UpdateRequest{PeerInfo: peerInfos(hostIDs, r%2 == 0), BlockNumber: uint64(r)}); err != nil {
+						note("client update: %v", err)
+					}
+					rp.Peer(ctx, pool.PeerRequest{Num: 2})
+					var out json.RawMessage
+					hs.Call(ctx, &out, "pool_status")
+					hs.Call(ctx, &out, "pool_account", walletIdent(0).addr)
+					if link && r == 0 {
+						w := walletIdent(c % 2)
+						n := time.Now().UnixNano()
+						hs.Call(ctx, &out, "pool_addNode", mustSign(w.key, "pool_addNode", w.addr, n, id.nodeID), w.addr, n, id.nodeID)
+					}
+				}
+			}()
+		}
+		wg.Wait()
+		log := p.log()
+		if strings.Contains(log, "DATA RACE") {
+			i := strings.Index(log, "WARNING: DATA RACE")
+			rt.Fatalf("the pool binary reported a data race:\n%.6000s", log[i:])
+		}
+		if strings.Contains(log, "panic:") || strings.Contains(log, "fatal error:") {
+			rt.Fatalf("the pool binary crashed:\n%s", tailLines(log, 80))
+		}
+		var out json.RawMessage
+		if err := httpClient(p.addr).Call(context.Background(), &out, "pool_status"); err != nil {
+			rt.Fatalf("pool_status after the workload: %v\n%s", err, tailLines(log, 30))
+		}
+		for _, e := range errs {
+			if strings.Contains(e, "failed to verify") {
+				rt.Fatalf("correctly signed request refused under load: %s", e)
+			}
+		}
+		rec.Case(fmt.Sprintf("binrace|%d|%d|%d", nHosts, nClients, rounds), nClients >= 2, []string{"binary-race"}, func() interface{} {
+			return map[string]interface{}{"kind": "pool binary (-race) over WebSocket + HTTP", "hosts": nHosts, "clients": nClients, "rounds": rounds, "request_errors": len(errs)}
 		})
 	})
 }
